@@ -296,6 +296,34 @@ Theorem C08_state_gas :
 Proof. exact state_gas_all. Qed.
 Print Assumptions C08_state_gas.
 
+(* ---- 3d. narrowing a 256-bit stack word to a machine word (x.Uint64(), x.Int64()): the model narrows exactly where the Go
+   code does; narrowing forgets the bits above 64, and the guards of BYTE / SHL / SHR / SIGNEXTEND / BLOCKHASH make operands
+   k*2^64 + r behave as the specification says (for data offsets and jump destinations see C08_stack_data, C08_jumpdest_spec,
+   C08_memory_ops, which hold for every 256-bit operand) ---- *)
+Theorem C08_narrowing :
+  (forall x, 0 <= x < two64 -> big_Uint64 x = x) /\
+  (forall k r, 0 < k -> 0 <= r < two64 ->
+  big_Uint64 (k * two64 + r) = r) /\
+  (forall getHash number num, 0 <= number < two64 -> word num ->
+  op_BLOCKHASH getHash number num = spec_BLOCKHASH getHash number num) /\
+  (forall getHash number k r,
+  0 <= number < two64 -> 0 < k -> 0 <= r -> word (k * two64 + r) ->
+  op_BLOCKHASH getHash number (k * two64 + r) = 0) /\
+  (forall k r v, 0 < k -> 0 <= r -> word (k * two64 + r) -> word v ->
+  op_BYTE (k * two64 + r) v = 0) /\
+  (forall k r v, 0 < k -> 0 <= r -> word (k * two64 + r) -> word v ->
+  op_SHL (k * two64 + r) v = 0) /\
+  (forall k r v, 0 < k -> 0 <= r -> word (k * two64 + r) -> word v ->
+  op_SHR (k * two64 + r) v = 0) /\
+  (forall k r v, 0 < k -> 0 <= r -> word (k * two64 + r) -> word v ->
+  op_SIGNEXTEND (k * two64 + r) v = v) /\
+  (forall inOff inSize retOff retSize,
+  word inOff -> word inSize -> word retOff -> word retSize ->
+  memoryCall inOff inSize retOff retSize =
+  Z.max (if retSize =? 0 then 0 else retOff + retSize) (if inSize =? 0 then 0 else inOff + inSize)).
+Proof. exact narrowing_all. Qed.
+Print Assumptions C08_narrowing.
+
 (* ---- 4. the instruction tables of the current source are the prescribed ones; fork selection; constants ---- *)
 
 Theorem C08_table_is_spec :
